@@ -32,6 +32,44 @@ def key_is_start_addr(prog, eff, clo):
     return ct is not None and match(C("GuestMemoryRegion::start_addr", ALT(C("Deref::deref", P(2)), P(2))), ct, {})
 
 
+def _subsequence_of_self(b, pos, s):
+    """the `regions` operand of the aggregate is a fresh Vec that is only ever pushed clones of the item of ONE iteration over
+    self.regions (so it is a subsequence, in order), or `self.regions.iter().filter(..).cloned().collect()`"""
+    ops = s["rv"]["ops"]
+    if len(ops) != 1:
+        return False
+    v = unref(b.term(ops[0], pos))
+
+    def from_self_regions(it, depth=0):
+        it = unref(it)
+        if depth > 8:
+            return False
+        if it[0] == 'field' and it[2] == 'regions' and unref(it[1])[:2] == ('param', 1):
+            return True
+        if it[0] == 'call' and it[2] and canon(it[1]).split("::")[-1] in ("iter", "into_iter", "deref", "filter", "cloned", "copied", "by_ref", "as_slice", "skip_while", "take_while", "skip", "take"):
+            return from_self_regions(it[2][0], depth + 1)
+        return False
+
+    if v[0] == 'call' and canon(v[1]).split("::")[-1] == "collect" and v[2]:
+        return from_self_regions(v[2][0])
+    if not (v[0] == 'call' and canon(v[1]).split("::")[-1] in ("new", "with_capacity") and "Vec" in canon(v[1])):
+        return False
+    pushes = [c for c in b.calls() if canon(c.target or "").endswith("Vec::push") and unref(c.args()[0]) == v]
+    others = [c for c in b.calls() if re.search(r"Vec::(insert|extend|append|extend_from_slice|swap|sort\w*|reverse|dedup\w*|resize\w*|splice|drain|retain\w*)$", canon(c.target or ""))
+              and c.args() and unref(c.args()[0]) == v]
+    if not pushes or others:
+        return False
+    nexts = set()
+    for c in pushes:
+        x = unref(c.args()[1])
+        if x[0] == 'call' and canon(x[1]).split("::")[-1] == "clone" and x[2]:
+            x = unref(x[2][0])
+        if not (x[0] == 'ok' and unref(x[1])[0] == 'call' and canon(unref(x[1])[1]).split("::")[-1] == "next" and from_self_regions(unref(x[1])[2][0])):
+            return False
+        nexts.add(unref(x[1]))
+    return len(nexts) == 1
+
+
 def rule_aggregates(ctx, prog, eff):
     sites = []
     for b in prog.bodies:
@@ -43,8 +81,14 @@ def rule_aggregates(ctx, prog, eff):
         root = prog.by_id.get(b.root, b)
         derived = bool(root.j.get("impl_derived"))
         ok = derived or (root.self_adt == MM and root.name in allowed)
+        sub = False
+        if not ok and root.self_adt == MM and b is root:
+            sub = _subsequence_of_self(b, pos, s)
+            ok = sub
         ctx.ob("R10.1.who_constructs", f"{b.key}", ok, b.where(s["ln"]),
                "GuestMemoryMmap value built in " + ("a derived Default/Clone impl" if derived else root.name) +
+               (" from a vector that only receives clones of the items of one pass over self.regions, in order: a subsequence of a sorted, "
+                "disjoint sequence is sorted and disjoint" if sub else "") +
                ("" if ok else " — a map constructed outside the validating constructor / remove_region may be unsorted or overlapping"))
     ctx.floor("R10.1.aggregate_sites", len(sites), 4)
     # other constructor paths funnel into from_arc_regions
